@@ -598,8 +598,17 @@ theorem invgamma_exact_at_nodes {g : ℝ → ℝ} (hgpos : ∀ x, 0 < g x) (scal
 /-! ## classic tabulated operators: the compositions around the spline (`spline`, `dspline` are SciPy's, parameters here) -/
 
 /-- `InverseGammaOperator`, `GammaOperator`, `LogInverseGammaOperator` are strictly increasing whenever the interpolant of
-    their table is, for positive `q`, `θ` -/
-theorem strictMono_tabulated_cl {spline : ℝ → ℝ} (hsp : StrictMono spline) {q : ℝ} (hq : 0 < q) :
+    their table is, for positive `q`, `θ`.
+
+    PARTIAL (known finding C30-classic_spline_small_shape). Full statement the property asks for — no hypothesis on the
+    interpolant, `spline` := SciPy's `CubicSpline` through the documented table on `arange(-8.2, 8.2, delta)`:
+      `∀ α θ delta > 0, StrictMono (GammaOperator α θ delta)`, values in the support `(0, ∞)` (same for `BetaOperator`).
+    It is FALSE for the real code in the region  shape ≤ 0.2 ∧ delta ≥ 0.02  (linear-space table spanning > 100 orders of
+    magnitude: the cubic spline rings): `GammaOperator(alpha=0.1, theta=1, delta=0.05)` has `spline(-6.99) = -1.897e-89`,
+    `spline(-5.08) = -1.7485e-67` (replayed on the real code every run: corpus/C30/classic_spline_small_shape.json).
+    What is proved is the implication from the monotonicity of the interpolant; the witness below shows that the
+    hypothesis cannot be dropped. The JAX transform (piecewise linear, `interp_monotone`) is not affected. -/
+theorem strictMono_tabulated_cl_partial {spline : ℝ → ℝ} (hsp : StrictMono spline) {q : ℝ} (hq : 0 < q) :
     StrictMono (invGammaCl spline q) ∧ StrictMono (gammaCl spline q) ∧ StrictMono (logInvGammaCl spline q) := by
   refine ⟨fun a b hab => ?_, fun a b hab => ?_, fun a b hab => ?_⟩
   · simp only [invGammaCl, TranscReal.exp_eq]
@@ -609,6 +618,23 @@ theorem strictMono_tabulated_cl {spline : ℝ → ℝ} (hsp : StrictMono spline)
   · simp only [logInvGammaCl]
     have := hsp hab
     linarith
+
+/-- witness at the excluded point: an interpolant with `spline(-5.08) < spline(-6.99)` and `spline(-5.08) < 0` (the values the
+    real `GammaOperator(alpha=0.1, theta=1, delta=0.05)` produces) makes the operator non-monotone and negative -/
+theorem tabulated_cl_witness {spline : ℝ → ℝ} (h : spline (-5.08) < spline (-6.99)) (hneg : spline (-5.08) < 0)
+    {θ : ℝ} (hθ : 0 < θ) :
+    ¬ StrictMono (gammaCl spline θ) ∧ gammaCl spline θ (-5.08) < 0 := by
+  refine ⟨fun hm => ?_, ?_⟩
+  · have hlt : gammaCl spline θ (-6.99) < gammaCl spline θ (-5.08) := hm (by norm_num)
+    simp only [gammaCl] at hlt
+    have := mul_lt_mul_of_pos_right h hθ
+    linarith
+  · simp only [gammaCl]
+    exact mul_neg_of_neg_of_pos hneg hθ
+
+example : ¬ StrictMono (gammaCl (fun x : ℝ => if x = -6.99 then (-1.897e-89 : ℝ) else -1.7485e-67) 1) :=
+  (tabulated_cl_witness (spline := fun x : ℝ => if x = -6.99 then (-1.897e-89 : ℝ) else -1.7485e-67)
+    (by norm_num) (by norm_num) one_pos).1
 
 /-- where the interpolant reproduces the table (`spline x = log Q(Φ x)`, resp. `Q(Φ x)`), the operators return the target
     quantile: `q·Q_α(p)` is the inverse-gamma(α, q) quantile, `Q_α(p)·θ` the gamma(α, θ) quantile (scale families) -/
